@@ -18,7 +18,7 @@ import sys
 import time
 
 ROOT = os.path.dirname(os.path.dirname(os.path.abspath(__file__)))
-EXTRA = dict(C10=["C11"], C01=["C18", "C05"], C19=["C18"], C07=["C06"], C12=["C02"], C02=["C12"])
+EXTRA = dict(C10=["C11"], C01=["C18", "C05"], C19=["C18"], C07=["C10", "C06"], C12=["C02"], C02=["C12"])
 
 
 def sh(cmd, cwd=None, env=None, timeout=3000):
